@@ -480,22 +480,34 @@ _CORE = None
 _EXTRA = None
 
 
+import threading
+_RULES_LOCK = threading.Lock()
+
+
 def _load_rules():
     global _CORE, _EXTRA
-    if _CORE is None:
-        _CORE = {"R4a": rw.r4a_enumerate, "R4c": rw.r4c_rangefrom, "R5": rw.r5_refpattern, "R14": rw.r14_mut_self,
-                 "R4b": rw.r4b_array_for, "R4e": rw.r4e_enumerate_skip, "R4f": rw.r4f_iter_for, "R4g": rw.r4g_slice_for,
-                 "R12": rw.r12_tryinto_usize, "R15": rw.r15_cfg_test}
-        _EXTRA = {}
-        import importlib
-        import glob as _g
-        d = os.path.join(os.path.dirname(os.path.abspath(__file__)), "rules_extra")
-        for p in sorted(_g.glob(os.path.join(d, "*.py"))):
-            name = os.path.basename(p)[:-3]
-            if name.startswith("_"):
-                continue
-            mod = importlib.import_module("vxlib.rules_extra." + name)
-            _EXTRA[name] = dict(getattr(mod, "RULES", {}))
+    with _RULES_LOCK:
+        if _CORE is None or _EXTRA is None:
+            core = {"R4a": rw.r4a_enumerate, "R4c": rw.r4c_rangefrom, "R5": rw.r5_refpattern, "R14": rw.r14_mut_self,
+                    "R4b": rw.r4b_array_for, "R4e": rw.r4e_enumerate_skip, "R4f": rw.r4f_iter_for, "R4g": rw.r4g_slice_for,
+                    "R12": rw.r12_tryinto_usize, "R15": rw.r15_cfg_test}
+            extra = {}
+            import importlib
+            import glob as _g
+            d = os.path.join(os.path.dirname(os.path.abspath(__file__)), "rules_extra")
+            for p in sorted(_g.glob(os.path.join(d, "*.py"))):
+                name = os.path.basename(p)[:-3]
+                if name.startswith("_"):
+                    continue
+                try:
+                    mod = importlib.import_module("vxlib.rules_extra." + name)
+                except Exception as e:  # a rule module that does not import only disables its own rules
+                    import sys as _s
+                    _s.stderr.write("warning: rules_extra/%s.py not loaded: %s\n" % (name, e))
+                    continue
+                extra[name] = dict(getattr(mod, "RULES", {}))
+            _EXTRA = extra
+            _CORE = core
     return _CORE, _EXTRA
 
 
